@@ -11,6 +11,8 @@ Every job runs in a child forked from this process *before any metamodel was cre
 Nothing in textX is patched except TextXMetaModel.__init__, wrapped only to stamp a creation
 serial on each metamodel object (used to report which metamodel owns the shared base rules).
 """
+import decimal
+import fractions
 import hashlib
 import io
 import json
@@ -51,6 +53,13 @@ Ref: 'ref' target=[Item] ';';
     "GE": """
 Model: Num | Item;
 Num: NUMBER | BOOL;
+Item: 'item' name=ID v=INT;
+""",
+    # the root rule yields whatever the object processors of its match rules return
+    "GF": r"""
+Model: Measure | Pair | Item;
+Measure: /\d+(\.\d+)?mm/;
+Pair: /\d+:\d+/;
 Item: 'item' name=ID v=INT;
 """,
     # invalid grammars: creation fails (after the metamodel object was initialised)
@@ -135,6 +144,17 @@ def make_classes():
             d[k] = v
             d["nset"] = d.get("nset", 0) + 1
 
+    class ItemGet:
+        """own __getattribute__: names read back upper-cased"""
+        def __init__(self, parent=None, **kw):
+            self.parent = parent
+            for k, v in kw.items():
+                setattr(self, k, v)
+
+        def __getattribute__(self, k):
+            v = object.__getattribute__(self, k)
+            return v.upper() if k == "name" and isinstance(v, str) else v
+
     class ItemBoom:
         def __init__(self, parent=None, **kw):
             if kw.get("name") == "boom":
@@ -156,7 +176,7 @@ def make_classes():
                 setattr(self, k, v)
 
     out = {}
-    for shape, c in (("plain", ItemPlain), ("set", ItemSet), ("boom", ItemBoom)):
+    for shape, c in (("plain", ItemPlain), ("set", ItemSet), ("boom", ItemBoom), ("get", ItemGet)):
         c.__name__ = "Item"
         out["Item:" + shape] = c
     ModelPlain.__name__ = "Model"
@@ -182,6 +202,18 @@ def obj_processors(names):
             procs["INT"] = lambda x: int(x) + 1
         elif n == "STRING:up":
             procs["STRING"] = lambda x: x[1:-1].upper()
+        elif n == "Measure:decimal":
+            procs["Measure"] = lambda x: decimal.Decimal(x[:-2])
+        elif n == "Measure:fraction":
+            procs["Measure"] = lambda x: fractions.Fraction(x[:-2])
+        elif n == "Measure:obj":
+            procs["Measure"] = lambda x: Plain(x)
+        elif n == "Pair:tuple":
+            procs["Pair"] = lambda x: tuple(int(t) for t in x.split(":"))
+        elif n == "Pair:frozenset":
+            procs["Pair"] = lambda x: frozenset(int(t) for t in x.split(":"))
+        elif n == "Pair:list":
+            procs["Pair"] = lambda x: [int(t) for t in x.split(":")]
         elif n == "Item:check":
             def check(o):
                 if o.name == "bad":
@@ -197,6 +229,12 @@ def obj_processors(names):
                     raise KeyError("perr")
             procs["Item"] = praise
     return procs
+
+
+class Plain:
+    """a mutable non-textX object returned by an object processor"""
+    def __init__(self, text):
+        self.text = text
 
 
 def lang_loc(o):
@@ -261,6 +299,13 @@ def dump_val(v, seen, depth=0):
     if isinstance(v, list):
         return "[" + ",".join(dump_val(x, seen, depth) for x in v) + "]"
     cls = type(v)
+    if isinstance(v, (tuple, frozenset)):
+        xs = list(v) if isinstance(v, tuple) else sorted(v, key=repr)
+        return "%s(%s)" % (cls.__name__, ",".join(dump_val(x, seen, depth) for x in xs))
+    if isinstance(v, (decimal.Decimal, fractions.Fraction)):
+        return "%s:%s" % (cls.__name__, v)
+    if isinstance(v, Plain):
+        return "Plain{%s}" % ",".join("%s=%s" % (k, dump_val(x, seen, depth + 1)) for k, x in sorted(vars(v).items()) if not k.startswith("_"))
     if not hasattr(cls, "_tx_attrs"):
         return "<%s>" % cls.__name__
     if id(v) in seen or depth > 12:
@@ -437,7 +482,8 @@ def run_job(job, tmp):
                         m = mm.model_from_str(op["input"], file_name=os.path.join(tmp, op["file"]))
                     else:
                         m = mm.model_from_str(op["input"])
-                    res = {"ok": "model", "dump": dump_val(m, set()), "prim": not hasattr(m, "_tx_parser")}
+                    res = {"ok": "model", "dump": dump_val(m, set()), "prim": type(m) in (int, float, str, bool),
+                           "imm": not hasattr(m, "_tx_parser")}
             else:
                 res = {"ok": "?"}
         except BaseException as e:  # noqa
